@@ -99,6 +99,9 @@ func Model(entries []Entry) (tree map[string]*Node, escaping bool) {
 			}
 		}
 		if p == "." {
+			if e.Dir { // an explicit entry for the root itself: its permission bits apply to the root
+				tree["."] = &Node{Dir: true, Perm: fs.FileMode(e.Perm) & fs.ModePerm, PermSet: true, EntryIdx: i}
+			}
 			continue
 		}
 		if e.Dir {
